@@ -19,6 +19,7 @@ pub mod c16;
 pub mod c17;
 pub mod c18;
 pub mod c19;
+pub mod c20;
 
 pub fn dispatch(prop: &str, cfg: &Cfg) -> Option<(Log, Meta)> {
   Some(match prop {
@@ -39,6 +40,7 @@ pub fn dispatch(prop: &str, cfg: &Cfg) -> Option<(Log, Meta)> {
     "C17" => c17::run(cfg),
     "C18" => c18::run(cfg),
     "C19" => c19::run(cfg),
+    "C20" => c20::run(cfg),
     _ => return None,
   })
 }
